@@ -396,8 +396,32 @@ fn parse_single(p: &str) -> Option<(u8, u32, u32)> {
     Some((form, lo, hi))
 }
 
+/// The AS_PATH the way as-path patterns are written against it (GoBGP's string form): segments
+/// separated by a blank, AS_SEQUENCE `a b`, AS_SET `{a,b}`, AS_CONFED_SEQUENCE `(a b)`,
+/// AS_CONFED_SET `[a,b]`.
+fn aspath_string(path: &[(u8, Vec<u32>)]) -> String {
+    path.iter()
+        .map(|(t, v)| {
+            let n: Vec<String> = v.iter().map(|a| a.to_string()).collect();
+            match t {
+                1 => format!("{{{}}}", n.join(",")),
+                3 => format!("({})", n.join(" ")),
+                4 => format!("[{}]", n.join(",")),
+                _ => n.join(" "),
+            }
+        })
+        .collect::<Vec<_>>()
+        .join(" ")
+}
+
 fn aspath_pattern_matches(p: &str, path: &[(u8, Vec<u32>)]) -> bool {
-    let Some((form, lo, hi)) = parse_single(p) else { return false };
+    let Some((form, lo, hi)) = parse_single(p) else {
+        // a general pattern: a regular expression over the string form, `_` standing for a boundary
+        return match regex::Regex::new(&p.replace('_', "(^|[,{}() ]|$)")) {
+            Ok(r) => r.is_match(&aspath_string(path)),
+            Err(_) => false,
+        };
+    };
     let inr = |a: u32| a >= lo && a <= hi;
     match form {
         0 => path.iter().any(|(_, v)| v.iter().any(|a| inr(*a))),
@@ -558,7 +582,14 @@ fn apply_actions(act: &MActions, a: &mut RAttrs, nh: &mut Option<IpAddr>, ctx: &
             let mut path = a.path.clone().unwrap_or_default();
             let asn = if leftmost { path.first().and_then(|(_, v)| v.first().copied()).unwrap_or(asn) } else { asn };
             let t = if ctx.is_confed { 3 } else { 2 };
-            path.insert(0, (t, vec![asn; repeat as usize]));
+            // RFC 4271 5.1.2 b / RFC 5065 4.1 c: into the leading segment if it is of the right kind
+            // and has room (255), into a new segment otherwise, one AS number at a time
+            for _ in 0..repeat {
+                match path.first_mut() {
+                    Some((ft, v)) if *ft == t && v.len() < 255 => v.insert(0, asn),
+                    _ => path.insert(0, (t, vec![asn])),
+                }
+            }
             a.path = Some(path);
         }
     }
@@ -865,6 +896,20 @@ impl Gen {
                     jarr![p.to_json(), lo as u64, hi as u64]
                 }
                 K_NEIGH => Json::from(*self.rng.pick(&["10.0.0.1/32", "10.0.0.2/32", "10.0.0.0/30", "10.0.0.4/32", "2001:db8::/64", "10.0.0.3/32"])),
+                K_ASPATH if self.rng.chance(1, 3) => {
+                    // a general pattern (not one of the eight single-AS forms)
+                    let a = *self.rng.pick(&ASNS[..5]);
+                    let b = *self.rng.pick(&ASNS[..5]);
+                    Json::from(match self.rng.below(7) {
+                        0 => format!("{} {}", a, b),
+                        1 => format!("^{} ", a),
+                        2 => format!("_{}_{}_", a, b),
+                        3 => format!("({}|{})$", a, b),
+                        4 => "^$".to_string(),
+                        5 => format!("{}.*{}", a, b),
+                        _ => format!("\\{{.*{}", a),
+                    })
+                }
                 K_ASPATH => {
                     let a = *self.rng.pick(&ASNS[..5]);
                     let b = a + self.rng.below(3) as u32;
@@ -1752,3 +1797,4 @@ fn names_differ(pt: &PolicyTable, m: &Model) -> (Option<String>, Option<String>)
     }
     (None, None)
 }
+
